@@ -1144,7 +1144,7 @@ class Job:
 
 
 def check(run: common.Run, drv: Any, rng: random.Random, tier: str) -> None:
-    n_prog, n_inj, chunk = (24, 10, 6) if tier == "quick" else (260, 12, 13)
+    n_prog, n_inj, chunk = (24, 10, 6) if tier == "quick" else (220, 12, 11)
     with R.Scratch("bpv-c20-") as sc, CF.ThreadPoolExecutor(16) as ex:
         cb = replay_kf(run, sc)
         run.notes["column_base_measured"] = cb.base
